@@ -89,10 +89,6 @@ theorem keywordAt_not_close {toks : List Tok} {i : Nat} (hk : KeywordAt toks i
   simp only [Tok.isKeyword, Bool.and_eq_true, beq_iff_eq] at hk'
   simp [isClose, Tok.isSymbol, hk'.1]
 
-/-- the range `[p, f)` of a function header, from the position `n` of its name -/
-def funStart (toks : List Tok) (n : Nat) : Nat :=
-  if 0 < n ∧ KeywordAt toks (n - 1) [102, 117, 110, 99, 116, 105, 111, 110] then n - 1 else n
-
 theorem funHeader_funStart {toks : List Tok} {n f : Nat} (hsyn : SynHeader toks n f) :
     FunHeader toks (funStart toks n) f := by
   unfold funStart
